@@ -12,6 +12,7 @@ package main
 import (
 	"encoding/hex"
 	"fmt"
+	"io"
 	"os"
 	"path/filepath"
 	"regexp"
@@ -22,6 +23,7 @@ import (
 	"sync"
 
 	"github.com/massnetorg/mass-core/poc"
+	"github.com/massnetorg/mass-core/pocec"
 
 	"massnet.org/mass/config"
 	"massnet.org/mass/poc/engine"
@@ -263,6 +265,44 @@ func keeperCase(run *vh.Run, root *vh.Rng, i, ci int) {
 	}
 	if len(created) != n {
 		viol("plot-files-created-differ-from-request", nil, map[string]interface{}{"files": len(created), "requested": n})
+	}
+	// half of the cases: somebody else's plot files lie in the directories too (copied from another miner, or of a
+	// keystore that was deleted), with names that sort before, between and after the wallet's own ones
+	if rng.Bool() {
+		var own []string
+		for _, f := range filesBefore {
+			if strings.HasSuffix(f, ".massdb") {
+				own = append(own, f)
+			}
+		}
+		planted := 0
+		for _, ord := range []int{0, before + 1, 99} {
+			fk, err := pocec.NewPrivateKey(pocec.S256())
+			if err != nil || len(own) == 0 {
+				break
+			}
+			src := own[rng.Intn(len(own))]
+			srcPath := filepath.Join(dir, src)
+			// header of one of the wallet's files, same (sparse) size
+			st, err := os.Stat(srcPath)
+			sf, err2 := os.Open(srcPath)
+			if err != nil || err2 != nil {
+				break
+			}
+			hdr := make([]byte, 4096)
+			n, _ := io.ReadFull(sf, hdr)
+			sf.Close()
+			name := fmt.Sprintf("%d_%x_24.massdb", ord, fk.PubKey().SerializeCompressed())
+			if df, err := os.Create(filepath.Join(filepath.Dir(srcPath), name)); err == nil {
+				df.Write(hdr[:n])
+				df.Truncate(st.Size())
+				df.Close()
+				planted++
+			}
+		}
+		trace = append(trace, fmt.Sprintf("%d plot files of keys the wallet does not own planted next to the wallet's plots (ordinals 0, %d, 99)", planted, before+1))
+		run.Count("foreign_plot_files_planted", int64(planted))
+		filesBefore = listing()
 	}
 	// restart: the wallet store is closed and reopened, a new keeper scans the directory
 	closeW()
